@@ -469,6 +469,27 @@ def blocks_evaluated(repo: Repo, ci, m: str):
                 got = scalar(call(ci.methods["compute"], {}, attrs))
             if abs(got - want) > 1e-12:
                 return False, f"block_size {bs}: error pattern {BLOCK_PATTERNS} gives {got!r}; {sum(1 for b in blocks if any(b))} of its {len(blocks)} blocks of {size} consecutive elements contain an error ({want!r})"
+            # the same for items with more than one axis: (2, 2, 4) - an item is flattened, then cut into runs of block_size
+            # elements (block_size None: the whole item is one block)
+            if bs in (None, 2, 4):
+                Z = [0, 0, 0, 0]
+                items = [[Z, Z], [Z, BLOCK_PATTERNS[1]]]
+                X3 = [[[0.0] * 4, [0.0] * 4], [[0.0] * 4, [0.0] * 4]]
+                Y3 = [[[float(e) for e in r] for r in it] for it in items]
+                flat = [[e for r in it for e in r] for it in items]
+                size3 = bs or 8
+                blocks3 = [f[i : i + size3] for f in flat for i in range(0, 8, size3)]
+                want3 = sum(1 for b in blocks3 if any(b)) / len(blocks3)
+                attrs = {"self.threshold": 0.25, "self.block_size": bs, "self.reduction": "mean"}
+                for b_ in bufs:
+                    attrs[f"self.{b_}"] = 0
+                if m == "forward":
+                    got3 = scalar(call(ci.methods["forward"], {"x": X3, "y": Y3, "args": PySeq([]), "kwargs": {}}, attrs))
+                else:
+                    call(ci.methods["update"], {"x": X3, "y": Y3, "args": PySeq([]), "kwargs": {}}, attrs)
+                    got3 = scalar(call(ci.methods["compute"], {}, attrs))
+                if abs(got3 - want3) > 1e-12:
+                    return False, f"block_size {bs}, input of shape (2, 2, 4) with one erroneous element in the second item: the rate is {got3!r}; {sum(1 for b in blocks3 if any(b))} of the {len(blocks3)} blocks ({'one per batch item' if bs is None else f'runs of {bs} elements of each flattened item'}) contain an error ({want3!r})"
     except Unfoldable as exc:
         scope.__exit__()
         return None, str(exc)
